@@ -29,7 +29,7 @@ PROPERTIES = {
                        "asserted top row holds iff the node is true (induction on height). bounded stand-ins: (1) the matrix "
                        "returned by the real to_ge_polyhedron equals the rows A-rs1 predicts, row for row, with the model's ids and "
                        "bounds on the columns (this covers the Python statement building and column re-attachment); (2) end to end "
-                       "A x >= b <=> evaluate on random models incl. wide bounds and near-identical variants in sequence.",
+                       "A x >= b <=> evaluate on random models incl. wide bounds and near-identical variants in sequence. ADDED: contracts.c01glue -- the real to_ge_polyhedron glue against the executable A-rs1 model (pyvc.rsmodel) for 4 tree shapes x all sign assignments, symbolic thresholds and leaf bounds: columns carry ids and bounds, rows hold at truth values iff the model is true (active) / always (inactive).",
     },
     "C02": {
         "harness_modules": ["contracts.c01", "contracts.c01glue"],
@@ -40,7 +40,7 @@ PROPERTIES = {
                        "lemma.sound_safe (for a node with no compound child under a negative sign, every in-bounds integer point of "
                        "its row has X_k <= truth(k); an asserted top row gives truth = 1), any number of children, induction on "
                        "height; negation re-establishes the safe form (C05 post.safe). bounded stand-ins: A-rs1 row validation; all "
-                       "integer points of small polyhedra; sampled points for wide bounds; unsafe models as reachability canaries.",
+                       "integer points of small polyhedra; sampled points for wide bounds; unsafe models as reachability canaries. ADDED: contracts.c01glue glue.c02.converse -- for solver-safe sign assignments every in-bounds integer point of the asserted polyhedron produced by the real glue over the A-rs1 model has a leaf part that makes the model true (bounded in shape, unbounded in values).",
     },
     "C03": {
         "harness_modules": ["contracts.assume", "contracts.c03"],
@@ -92,7 +92,7 @@ PROPERTIES = {
         "level": "proof",
         "assumptions": S_ALL,
         "explanation": "AtLeast.assume / variable.assume (real source) against post.c07: for every further interpretation e of "
-                       "the remaining leaves, ival(assume(d), e) == ival(self, d|e); plus the spec lemmas it uses.",
+                       "the remaining leaves, ival(assume(d), e) == ival(self, d|e); plus the spec lemmas it uses. ADDED stand-in: rt.c07_assume_compose checks the property as stated (assume(a).evaluate(r) == evaluate(a|r)) for int / range / Bounds / constant-tuple values and sub-proposition ids.",
     },
     "C08": {
         "harness_modules": ["contracts.reduce"],
@@ -111,7 +111,7 @@ PROPERTIES = {
                        "variable.evaluate / reduce / equation_bounds,is_tautology,is_contradiction / the connective constructors / "
                        "to_short,to_json is executed symbolically and a heap snapshot shows that no pre-existing object, list or "
                        "module-level container is written. bounded stand-ins: deep snapshots around sequences of public calls "
-                       "(all public methods incl. evaluate/to_ge_polyhedron/solve), two-configurator cache scenario",
+                       "(all public methods incl. evaluate/to_ge_polyhedron/solve), two-configurator cache scenario ADDED: frame obligations for StingyConfigurator.add and default_prios; stand-in rt.c09_configurator_purity (sequences of configurator calls incl. add/select).",
     },
     "C10": {
         "harness_modules": ["contracts.c10"],
@@ -161,7 +161,7 @@ PROPERTIES = {
                            "children are moved into an inner Any tagged prio = -2 and the default branch keeps exactly the default "
                            "child (partition), plain Any otherwise; the default is recorded. Lean: dominance_two_level. bounded "
                            "stand-in: default_prios, _vectors_from_prios through select (sequences, batches, named groups) and the "
-                           "lexicographic ranking of ALL pairs of feasible points of small configurators."},
+                           "lexicographic ranking of ALL pairs of feasible points of small configurators. ADDED: StingyConfigurator.default_prios (tag or -1 for every flattened node, over the assumed flatten contract) and ge_polyhedron_config._vectors_from_prios (the [default vector, user row] stack handed to the shadow compression; compression itself replaced by a recorder) under contract with replay."},
     "C15": {"harness_modules": ["contracts.c15", "contracts.c14"],
             "harness_filter": only("AtLeast.solve", "ge_polyhedron_config.select", "StingyConfigurator.select",
                                    "ge_polyhedron_config._vectors_from_prios"),
@@ -175,7 +175,7 @@ PROPERTIES = {
                            "generated-id filter, None -> {}, pass-through of value/status; ge_polyhedron_config.select likewise and "
                            "turns a solver exception into InfeasibleError; StingyConfigurator.select forwards and keeps exactly the "
                            "leaf ids under only_leafs. bounded stand-in: recording and exact solvers on random models/configurators, "
-                           "batched vs single requests."},
+                           "batched vs single requests. ADDED: ge_polyhedron_config._vectors_from_prios under contract (user row = weight at the named column, 0 elsewhere, symbolic column bounds)."},
     "C16": {"harness_modules": ["contracts.c16"],
             "rt": ["rt.logic:c16_json_roundtrip", "rt.config:c16_configurator_json"], "level": "other",
             "assumptions": S_ALL + ["json.dumps/json.loads is the identity on the emitted records (checked by the stand-in only)"],
@@ -216,5 +216,5 @@ PROPERTIES = {
                            "result / lower bound (int) / NaN (float); boolean and integer index sets partition the columns by "
                            "bounds == (0,1); to_list returns exactly the variables at the 1-entries in order (1-D and 2-D); "
                            "to_linalg / A / b split the support column with matching variables. bounded stand-in: from_list "
-                           "conversions, unicode / integer ids, real numpy."},
+                           "conversions, unicode / integer ids, real numpy. ADDED: integer_ndarray.from_list / boolean_ndarray.from_list for symbolic duplicate-free ids (flat and nested form)."},
 }
